@@ -131,7 +131,14 @@ impl Run {
         writeln!(self.imp, "{answer}").unwrap();
         self.lines += 1;
         if self.samples.len() < 6 || (self.samples.len() < 12 && self.lines % 9973 == 0) {
-            self.samples.push(format!("{op} => {answer}"));
+            let mut s = format!("{op} => {answer}");
+            if s.len() > 400 {
+                let mut cut = 400;
+                while !s.is_char_boundary(cut) { cut -= 1; }
+                s.truncate(cut);
+                s.push_str(" …");
+            }
+            self.samples.push(s);
         }
     }
     pub fn count(&mut self, key: &str) {
